@@ -133,9 +133,53 @@ def oracle(run):
     return v
 
 
+def flags_extra(R, dud, drv, rng, tier, runs):
+    """the exit status of a copy checkout over a damaged object under every boolean flag the help text lists (global ones included)"""
+    import os, re, shutil, subprocess, tempfile
+    base = tempfile.mkdtemp(prefix="c19fl.", dir=vlib.scratch())
+    env = dict(os.environ, XDG_CONFIG_HOME=os.path.join(base, "xdg"), HOME=base, LC_ALL="C")
+    hp = subprocess.run([dud, "checkout", "--help"], env=env, stdout=subprocess.PIPE, stderr=subprocess.STDOUT).stdout
+    flags = []
+    for line in s1.ROOT_WARNING.sub(b"", hp).decode(errors="replace").splitlines():
+        m = re.match(r"^\s+(?:-\w, )?(--[a-z][-a-z0-9]*)(\s+\S+)?\s{2,}", line)
+        if m and m.group(1) not in ("--help", "--copy") and not (m.group(2) or "").strip():
+            flags.append(m.group(1))
+    viol = []
+    for k, fl in enumerate([None] + sorted(set(flags))):
+        root = os.path.join(base, "p%d" % k)
+        os.makedirs(os.path.join(root, "data", "sub"))
+        q = dict(cwd=root, env=env, stdout=subprocess.PIPE, stderr=subprocess.PIPE)
+        subprocess.run([dud, "init"], **q)
+        open(os.path.join(root, "data", "a.bin"), "wb").write(b"a" * 3000)
+        open(os.path.join(root, "data", "sub", "b.bin"), "wb").write(b"b" * 70000)
+        open(os.path.join(root, "s.yaml"), "w").write("outputs:\n  data:\n    is-dir: true\n")
+        subprocess.run([dud, "stage", "add", "s.yaml"], **q)
+        subprocess.run([dud, "commit"], **q)
+        tgt = os.path.realpath(os.path.join(root, "data", "sub", "b.bin"))
+        os.chmod(tgt, 0o644)
+        open(tgt, "r+b").write(b"X")          # one byte flipped in the object
+        os.chmod(tgt, 0o444)
+        shutil.rmtree(os.path.join(root, "data"))
+        # global flags go in front of the sub-command as well as behind it
+        for args in ([[fl, "checkout", "--copy"], ["checkout", "--copy", fl]] if fl else [["checkout", "--copy"]]):
+            p = subprocess.run([dud] + args, **q)
+            R.count("flag-%s-%s" % (fl, args[0]), True)
+            bad = os.path.join(root, "data", "sub", "b.bin")
+            if p.returncode == 0:
+                viol.append("`dud %s` exited 0 although the object of data/sub/b.bin is damaged%s" % (
+                    " ".join(args), "; the damaged bytes are in the workspace" if os.path.exists(bad) else ""))
+            shutil.rmtree(os.path.join(root, "data"), ignore_errors=True)
+            for junk in ("dud.pprof", "dud.trace"):
+                if os.path.lexists(os.path.join(root, junk)):
+                    os.unlink(os.path.join(root, junk))
+    shutil.rmtree(base, ignore_errors=True)
+    if viol:
+        R.violation(dict(kind="property-violated-on-implementation", scenario="copy checkout over a damaged object with each boolean flag", violations=viol[:6]))
+
+
 def main(tier, replay=None):
     return s1eval.generic_main(PROP, tier, replay, make_cases, oracle, None,
                                nontrivial=lambda run: len(run["steps"]) > 1 and bool(run["steps"][1]["corrupted"]),
                                rule="S1: committed artifacts, one file object of the cache corrupted (flip / truncate / extend / empty / other bytes), "
                                     "workspace wiped, checkout --copy (and a retry): must exit non-zero; non-trivial = a referenced object was corrupted",
-                               seed_salt=19, n_quick=100, n_thorough=1500)
+                               seed_salt=19, n_quick=100, n_thorough=1500, extra=flags_extra)
